@@ -280,7 +280,8 @@ impl<'a> Gen<'a> {
             if let Some(to) = tgt {
                 let how = self.peer_how();
                 let msg = self.msg(to, depth + 1, false);
-                v.push(Step::Send { to, how, msg: Box::new(msg) });
+                let erased = self.ch.chance(1, 4);
+                v.push(Step::Send { to, how, msg: Box::new(msg), erased });
                 if self.ch.chance(1, 3) {
                     let d = even(self.ch, max_sleep);
                     if d > 0 {
